@@ -1192,6 +1192,79 @@ func mock(name string) func(*scen) {
 	}
 }
 
+// the receive queue is full and a pipe's receiver goroutine sits on one more message when READQ-LEN is changed (twice):
+// whatever the application receives afterwards is its own -- held, compared again after more traffic of the same sizes,
+// then released exactly once.  Every protocol that takes READQ-LEN, over mock pipes.
+func mockResize(name string) func(*scen) {
+	return func(s *scen) {
+		p := wire.Protocols[name]()
+		defer p.Close()
+		if name == "sub" || name == "xsub" {
+			_ = p.SetOption(mangos.OptionSubscribe, []byte{})
+		}
+		if p.SetOption(mangos.OptionReadQLen, 1) != nil {
+			s.note("no READQ-LEN")
+			return
+		}
+		_ = p.SetOption(mangos.OptionRecvDeadline, 15*time.Millisecond)
+		_ = p.SetOption(mangos.OptionSendDeadline, 15*time.Millisecond)
+		_ = p.SetOption(mangos.OptionSurveyTime, 500*time.Millisecond)
+		rec := &mp.Recorder{}
+		var pipes []*mp.Pipe
+		for i := 0; i < 2; i++ {
+			pp := mp.NewPipe(uint32(100+i), i, p, rec)
+			if pp.Attach() != nil {
+				break
+			}
+			pipes = append(pipes, pp)
+		}
+		if len(pipes) == 0 {
+			s.note("attach failed")
+			return
+		}
+		// what a peer has to put in front of the body for the message to be accepted
+		pre := []byte{}
+		switch name {
+		case "rep", "xrep", "respondent", "xrespondent":
+			pre = []byte{0x80, 0, 0, 1}
+		case "star", "xstar", "pair1", "xpair1":
+			pre = []byte{0, 0, 0, 1}
+		case "req", "xreq", "surveyor", "xsurveyor":
+			rec.TakeTx()
+			if s.send(p, rawHdr[name], s.body("q", 64)) != nil {
+				return
+			}
+			time.Sleep(3 * time.Millisecond)
+			for _, tx := range rec.TakeTx() {
+				if len(tx.Header) >= 4 {
+					pre = cp(tx.Header[len(tx.Header)-4:])
+				}
+			}
+			if len(pre) == 0 {
+				pre = []byte{0x80, 0, 0, 1}
+			}
+		}
+		for round := 0; round < 2; round++ {
+			sizes := []int{s.size(), s.size(), s.size(), s.size()}
+			for i, n := range sizes {
+				pipes[i%len(pipes)].Inject(append(cp(pre), s.body("rz", n)...), 5*time.Millisecond)
+			}
+			time.Sleep(3 * time.Millisecond)
+			_ = p.SetOption(mangos.OptionReadQLen, 2+round) // the receivers blocked on the full queue wake up
+			time.Sleep(3 * time.Millisecond)
+			for i, n := range sizes {
+				pipes[i%len(pipes)].Inject(append(cp(pre), s.body("rz", n)...), 5*time.Millisecond)
+			}
+			time.Sleep(2 * time.Millisecond)
+			s.recvN(p, 8)
+			s.churn(sizes)
+			s.settle("resize with a receiver holding a message")
+			_ = p.SetOption(mangos.OptionReadQLen, 1)
+		}
+		s.release(-1)
+	}
+}
+
 // a raw reply whose send times out (the requester's connection is backed up) and is then sent again by the caller:
 // the failed call must leave the message exactly as it was, so that the second attempt takes the same route.
 func rawRetry(name string) func(*scen) {
@@ -1330,6 +1403,7 @@ func jobs() []job {
 		for _, n := range wire.AllNames {
 			js = append(js, job{"send-outcomes/" + n + sfx, "inproc", sendOutcomes(n)})
 			js = append(js, job{"mock/" + n + sfx, "mock", mock(n)})
+			js = append(js, job{"mock-resize/" + n + sfx, "mock", mockResize(n)})
 		}
 	}
 	return js
